@@ -99,11 +99,20 @@ def translate_expression(expr, env: Env) -> TExp:  # noqa: C901
                 else:
                     raise exceptions.OutOfBoundException(len(get_args(inner_type)), i)
 
-        if hasattr(inner_type, "BIT_SIZE"):
-            return (
-                inner_type,
-                [Symbol(f"{sn}.{i}") for i in range(inner_type.BIT_SIZE)],
-            )
+        def bit_symbols(base, ttype):
+            if hasattr(ttype, "BIT_SIZE"):
+                return [Symbol(f"{base}.{i}") for i in range(ttype.BIT_SIZE)]
+            elif len(get_args(ttype)) > 0:  # an element which is a tuple itself
+                return [
+                    b
+                    for i, t in enumerate(get_args(ttype))
+                    for b in bit_symbols(f"{base}.{i}", t)
+                ]
+            else:
+                return [Symbol(base)]
+
+        if hasattr(inner_type, "BIT_SIZE") or len(get_args(inner_type)) > 0:
+            return (inner_type, bit_symbols(sn, inner_type))
         else:
             return (inner_type, Symbol(sn))
 
